@@ -10,7 +10,7 @@ func init() {
 	register(&propDef{
 		id: "C46", title: "Stream junctions preserve elements and per-branch order",
 		technique: "per-message-case CFG rules (every path through an element-handling case forwards or buffers the element; forwarding sites carry the received value to the intended branch), guard dominance with edge facts, FIFO-shape rule on the junction queue",
-		explanation: "Decides element conservation and routing shape of the junction actors: for the hubs of Broadcast, Balance and Partition and the fan-in actors of Merge, weighted Merge, Concat and ZipN: (1) in the case that handles an incoming element every path either forwards the received value (streamElement with value = the received value) or buffers it; Partition may drop only on its documented out-of-range / cancelled-branch edge; (2) Broadcast forwards inside a loop over all slots in which only cancelled (nil) slots are skipped; Balance forwards at most once per element, to a slot chosen under demand > 0 and not cancelled; Partition forwards to the slot its function returned for that value, with that slot's subscription id; (3) fan-in actors emit only values popped from their buffers, under demand > 0, decrementing demand; they complete only on the edge 'all inputs done and buffers empty'; Concat starts the next input only from the done notification of the current one, in index order; ZipN pops exactly one value per slot in slot order into the same tuple position and emits only when every slot has a value; (4) hubs pull from upstream only when nothing is in flight and never more than the demand they can serve (total demand for Balance, minimum demand for Broadcast/Partition); (5) the junction queue is FIFO (push appends at the tail, pop takes from the head). Ordering across actors relies on per-sender FIFO mailboxes (C04) and is not re-derived; fairness of Balance is not decided.",
+		explanation: "Decides element conservation and routing shape of the junction actors: for the hubs of Broadcast, Balance and Partition and the fan-in actors of Merge, weighted Merge, Concat and ZipN: (1) in the case that handles an incoming element every path either forwards the received value (streamElement with value = the received value) or buffers it; Partition may drop only on its documented out-of-range / cancelled-branch edge; (2) Broadcast forwards inside a loop over all slots in which only cancelled (nil) slots are skipped; Balance forwards at most once per element, to a slot chosen under demand > 0 and not cancelled; Partition forwards to the slot its function returned for that value, with that slot's subscription id; (3) fan-in actors emit only values popped from their buffers, under demand > 0, decrementing demand; they complete only on the edge 'all inputs done and buffers empty'; Concat starts the next input only from the done notification of the current one, in index order; ZipN pops exactly one value per slot in slot order into the same tuple position and emits only when every slot has a value; (4) hubs pull from upstream only when nothing is in flight and never more than the demand they can serve (total demand for Balance, minimum demand for Broadcast/Partition); (5) the junction queue is FIFO (push appends at the tail, pop takes from the head). Ordering across actors relies on per-sender FIFO mailboxes (C04) and is not re-derived; fairness of Balance is not decided. Added after seed C46a: every tuple Zip emits is a slice of its own: the argument of combineFn is a local defined once, by make, inside the emission loop (the documented 'fresh slice on every call').",
 		assumptions: []string{"per-sender FIFO delivery between stage actors (C04)", "actor turn atomicity"},
 		minObl:     52,
 		run:        runC46,
@@ -572,6 +572,52 @@ func runC46(c *Ctx) {
 			return true
 		})
 		c.Check(okPos, "tuple[i]=pop(bufs[i])", "position i of the emitted tuple is the head of input i's buffer (positional pairing), one value per input", c.P.Pos(fn.Decl.Pos()), "tuple construction does not pop bufs[i] into tup[i] exactly once")
+		// each emitted tuple is a slice of its own ("combine receives a fresh slice of length N on every call"): the
+		// argument of combineFn is a local defined exactly once, by an allocation, inside the emission loop
+		nComb := 0
+		var stack []ast.Node
+		ast.Inspect(fn.Decl.Body, func(n ast.Node) bool {
+			if n == nil {
+				stack = stack[:len(stack)-1]
+				return true
+			}
+			stack = append(stack, n)
+			call, ok := n.(*ast.CallExpr)
+			if !ok || !isFieldSel(info, call.Fun, fieldOf("zipNSourceActor", "combineFn")) || len(call.Args) != 1 {
+				return true
+			}
+			nComb++
+			var loop ast.Stmt
+			for _, s := range stack {
+				switch s.(type) {
+				case *ast.ForStmt, *ast.RangeStmt:
+					loop = s.(ast.Stmt)
+				}
+			}
+			fresh, why := false, "the argument of combineFn is not a local variable"
+			if id, ok := ast.Unparen(call.Args[0]).(*ast.Ident); ok {
+				obj := info.ObjectOf(id)
+				def := singleLocalDefIn(info, fn.Decl.Body, obj)
+				switch {
+				case def == nil:
+					why = "the tuple variable is assigned more than once (or not by a definition): emissions may share one backing array"
+				case loop == nil || obj.Pos() < loop.Pos() || obj.Pos() >= loop.End():
+					why = "the tuple is allocated outside the emission loop: every tuple of one flush shares its backing array"
+				default:
+					if mk, ok := ast.Unparen(def).(*ast.CallExpr); ok {
+						if b, ok := mk.Fun.(*ast.Ident); ok && b.Name == "make" && info.Uses[b] == types.Universe.Lookup("make") {
+							fresh = true
+						}
+					}
+					why = "the tuple is not defined by make(...)"
+				}
+			}
+			c.Check(fresh, "tuple-is-fresh", "every emitted tuple is a freshly allocated slice (one allocation per emission, inside the emission loop)", c.P.Pos(call.Pos()), why)
+			return true
+		})
+		if nComb == 0 {
+			c.Undecided("tuple-is-fresh", "every emitted tuple is a freshly allocated slice", c.P.Pos(fn.Decl.Pos()), "no combineFn call found in tryEmit")
+		}
 		ar := c.Func("stream", "zipNSourceActor.allReady")
 		af := c.NewFlow(ar)
 		emptyEdge := af.BoolEdges(func(e ast.Expr) bool { return isCallNamed(af.Info, e, "empty") }, true)
